@@ -41,15 +41,8 @@ theorem normalize_preserves_mount_totals (h n : Hardware) (hn : h.normalized = .
 /-- what `a + b` is: cores and memory add, every mount point gets the sum of the two totals -/
 theorem add_totals (a b s : Hardware) (h : a.add b = .ok s) :
     s.cores = a.cores + b.cores ∧ s.memory = a.memory + b.memory ∧
-    ∀ μ, mountTotal s.storage μ = mountTotal a.storage μ + mountTotal b.storage μ := by
-  simp only [Hardware.add, bind_eq_ok] at h
-  obtain ⟨sa, hsa, sb, hsb, st, hst, e⟩ := h
-  cases e
-  refine ⟨rfl, rfl, fun μ => ?_⟩
-  rw [mkHardware_total, reduceFrom_add_total hst, listTotal_append, ← mountTotal_eq_listTotal,
-    ← mountTotal_eq_listTotal, normalizeStorage_total hsa, normalizeStorage_total hsb]
-  have : mountTotal [] μ = 0 := rfl
-  grind
+    ∀ μ, mountTotal s.storage μ = mountTotal a.storage μ + mountTotal b.storage μ :=
+  add_totals_lem a b s h
 
 /-- `a + b` never raises on constructor-valid operands -/
 theorem add_ok (a b : Hardware) (ha : ValidMap a.storage) (hb : ValidMap b.storage) : ∃ s, a.add b = .ok s := by
